@@ -110,8 +110,7 @@ package mqtt
 //@   ensures[C17] stored: c.handler == handler
 //@   ensures[C17] forwarded: guardVal(&c.cli) != nil ==> evCount("(*BaseClient).Handle") == 1 && evArg[*BaseClient]("(*BaseClient).Handle", 0, 0) == guardVal(&c.cli) &&
 //@        evArg[Handler]("(*BaseClient).Handle", 0, 1) == handler
-//@   ensures[C17] atomically: evCount("lock") == 1 && evArg[*sync.RWMutex]("lock", 0, 0) == &c.mu && evCount("unlock") == 1 &&
-//@        (evCount("(*BaseClient).Handle") == 1 ==> evIndex("lock", 0) < evIndex("(*BaseClient).Handle", 0) && evIndex("(*BaseClient).Handle", 0) < evIndex("unlock", 0))
+//@   ensures[C17] atomically: evCount("(*BaseClient).Handle") == 1 ==> evHeld("(*BaseClient).Handle", 0, &c.mu)
 
 //@ func (*RetryClient).Connect
 //@   mode int
@@ -126,8 +125,7 @@ package mqtt
 //@        evArg[*BaseClient]("(*BaseClient).Handle", 0, 0) == evArg[*BaseClient]("(*BaseClient).Connect", 0, 0) &&
 //@        evArg[Handler]("(*BaseClient).Handle", 0, 1) == guardVal(&c.handler) && evArg[*BaseClient]("(*BaseClient).Connect", 0, 0) == guardVal(&c.cli) &&
 //@        evIndex("(*BaseClient).Handle", 0) < evIndex("(*BaseClient).Connect", 0)
-//@   ensures[C17] installed_atomically: evCount("lock") >= 1 && evArg[*sync.RWMutex]("lock", 0, 0) == &c.mu && evArg[*sync.RWMutex]("unlock", 0, 0) == &c.mu &&
-//@        evIndex("lock", 0) < evIndex("(*BaseClient).Handle", 0) && evIndex("(*BaseClient).Handle", 0) < evIndex("unlock", 0)
+//@   ensures[C17] installed_atomically: evHeld("(*BaseClient).Handle", 0, &c.mu)
 //@   ensures[C09] same_connect: evArg[string]("(*BaseClient).Connect", 0, 2) == clientID && sameSlice(evArg[[]ConnectOption]("(*BaseClient).Connect", 0, 3), opts) &&
 //@        evArg[context.Context]("(*BaseClient).Connect", 0, 1) == ctx
 //@   ensures[C01] signalled: evCount("close") == 1 && evIndex("(*BaseClient).Connect", 0) < evIndex("close", 0)
